@@ -284,4 +284,74 @@ def getpath (s : S) (h : Nat) : Int × Option Nat :=
     | [] => (-22, none)
     | c :: _ => (0, some (s.ctxs c).path)
 
+/-! ### Specification vocabulary (used by Props/C17): projections of the trace and the intended
+    callback sequence as a function of the results a context saw while it was the live one. -/
+
+structure CbRec where
+  status : Int
+  prev : Stat
+  curr : Stat
+deriving DecidableEq, Repr, Inhabited
+
+/-- results delivered to context `c` while it was live, newest first -/
+def histOf (c : Nat) : List Obs → List Res
+  | [] => []
+  | .res c' r live :: t => if live && c' == c then r :: histOf c t else histOf c t
+  | _ :: t => histOf c t
+
+/-- user callbacks made by context `c`, newest first -/
+def cbsOf (c : Nat) : List Obs → List CbRec
+  | [] => []
+  | .cb c' _ _ st p cu :: t => if c' == c then ⟨st, p, cu⟩ :: cbsOf c t else cbsOf c t
+  | _ :: t => cbsOf c t
+
+/-- stat requests submitted by context `c`, newest first (the path each one used) -/
+def statsOf (c : Nat) : List Obs → List Nat
+  | [] => []
+  | .stat c' p :: t => if c' == c then p :: statsOf c t else statsOf c t
+  | _ :: t => statsOf c t
+
+/-- timer (re)arms by context `c` -/
+def armsOf (c : Nat) : List Obs → List Nat
+  | [] => []
+  | .arm c' n :: t => if c' == c then n :: armsOf c t else armsOf c t
+  | _ :: t => armsOf c t
+
+/-- two consecutive poll results differ in status or in the compared metadata -/
+def differ : Res → Res → Bool
+  | .ok a, .ok b => !statbufEq a b
+  | .err e, .err f => e != f
+  | _, _ => true
+
+/-- metadata of the latest successful result (newest first), `zero_statbuf` if none -/
+def lastOk : List Res → Stat
+  | [] => Stat.zero
+  | .ok st :: _ => st
+  | .err _ :: t => lastOk t
+
+/-- is result `r`, arriving after `older` (newest first), reported?  Exactly when it differs from the
+    immediately preceding result; the very first result is reported only if it is an error. -/
+def reported (older : List Res) (r : Res) : Bool :=
+  match older, r with
+  | [], .err _ => true
+  | [], .ok _ => false
+  | p :: _, r => differ p r
+
+/-- the callbacks the property prescribes for a result history (both newest first) -/
+def specCbs : List Res → List CbRec
+  | [] => []
+  | r :: older =>
+    (if reported older r then [⟨r.status, lastOk older, r.curr⟩] else []) ++ specCbs older
+
+/-- value of `busy_polling` after a history -/
+def busyOf : List Res → Int
+  | [] => 0
+  | .ok _ :: _ => 1
+  | .err e :: _ => (Res.err e).status
+
+/-- the latest callback with status 0, if any (newest first) -/
+def newestOkCb : List CbRec → Option CbRec
+  | [] => none
+  | cb :: t => if cb.status = 0 then some cb else newestOkCb t
+
 end UvModel.FsPoll
